@@ -7,10 +7,11 @@ import boot  # noqa: F401
 from harness.drivers.tcpcl_world import World, EndCfg
 from harness.indep import tcpcl_codec as codec
 
-SESS_MOVES = ['seg_nostart_unknown', 'seg_end_unknown', 'ack_unknown', 'ack_finished', 'refuse_unknown',
+SESS_MOVES = ['seg_nostart_unknown', 'seg_end_unknown', 'ack_unknown', 'ack_finished', 'ack_own_end', 'ack_own_mid',
+              'refuse_unknown', 'refuse_sent_unacked',
               'refuse_own', 'unknown_type', 'xfer_ok', 'xfer_start', 'xfer_mismatch', 'xfer_cont_end', 'ka',
               'reject_msg', 'term', 'ch_again']
-PRE_INIT_MOVES = ['seg', 'ack', 'refuse', 'term', 'ka', 'unknown_type']
+PRE_INIT_MOVES = ['seg', 'ack', 'refuse', 'term', 'ka', 'unknown_type', 'ack_early_own', 'refuse_early_own']
 PRE_CH_MOVES = ['bad_magic', 'bad_version', 'seg_first']
 
 
@@ -26,6 +27,7 @@ class Adversary(object):
         self.open_id = None
         self.acked = 0         # victim segments acknowledged so far
         self.cum = {}
+        self.noack = set()     # own transfers of the victim which the adversary has refused instead
 
     def send(self, octets):
         try:
@@ -55,6 +57,8 @@ class Adversary(object):
             start = bool(seg['flags'] & codec.SEG_START)
             total = (0 if start else self.cum.get(seg['id'], 0)) + seg['len']
             self.cum[seg['id']] = total
+            if seg['id'] in self.noack:
+                continue
             self.send(codec.enc_ack(seg['id'], total, seg['flags']))
             did = True
         return did
@@ -72,6 +76,28 @@ class Adversary(object):
             self.send(codec.enc_ack(999, 5, codec.SEG_END))
         elif name == 'ack_finished':
             self.send(codec.enc_ack(1, 0, 0))
+        elif name in ('ack_own_end', 'ack_own_mid'):
+            # a final ACK of the victim's newest own transfer, whatever its progress: still queued (first move
+            # after the send request), being segmented (one queue-processing step, no co-operation), or done
+            if name == 'ack_own_mid':
+                self.w.step(self.victim, 'pq')
+                self.w.step(self.victim, 'tx')
+            own = self.w.sent_order[self.victim]
+            tid = own[-1] if own else 1
+            self.send(codec.enc_ack(tid, 5, codec.SEG_END))
+        elif name == 'refuse_sent_unacked':
+            # refuse a transfer of the victim which is completely sent but whose final ACK is still owed, while
+            # the victim is (if it has more to send) already segmenting the next one
+            for _ in range(40):
+                segs = [m for m in self.w.stream_msgs[self.victim] if m['t'] == 'SEG']
+                pending = [m['id'] for m in segs[self.acked:] if m['flags'] & codec.SEG_END]
+                if pending and segs[-1]['id'] != pending[0] and not segs[-1]['flags'] & codec.SEG_END:
+                    break       # the next transfer is under way
+                self.w.step(self.victim, 'pq')
+                self.w.step(self.victim, 'tx')
+            if pending:
+                self.noack.add(pending[0])
+                self.send(codec.enc_refuse(pending[0], 1))
         elif name == 'refuse_unknown':
             self.send(codec.enc_refuse(999, 2))
         elif name == 'refuse_own':
@@ -109,6 +135,11 @@ class Adversary(object):
             self.send(codec.enc_ack(5, 1, codec.SEG_END))
         elif name == 'refuse':
             self.send(codec.enc_refuse(5, 1))
+        elif name == 'ack_early_own':
+            # names the first transfer the victim's application may already have queued (ids start at 1)
+            self.send(codec.enc_ack(1, 3, codec.SEG_END))
+        elif name == 'refuse_early_own':
+            self.send(codec.enc_refuse(1, 2))
         elif name == 'bad_magic':
             self.send(b'DTN!' + bytes([4, 0]))
         elif name == 'bad_version':
@@ -119,7 +150,7 @@ class Adversary(object):
             raise ValueError(name)
 
 
-def run_script(victim, pre_ch, pre_init, sess, nown=1, seed=0):
+def run_script(victim, pre_ch, pre_init, sess, nown=1, seed=0, early=0):
     cfg_v = EndCfg('dtn://victim/', seg_mru=64, seg_init=3)
     cfg_o = EndCfg('dtn://peer/')
     world = World(cfg_v if victim == 'A' else cfg_o, cfg_v if victim == 'P' else cfg_o, auto_deliver=False,
@@ -132,6 +163,10 @@ def run_script(victim, pre_ch, pre_init, sess, nown=1, seed=0):
         adv.settle()
     adv.send(codec.enc_contact(0))
     adv.settle()
+    # the application may queue bundles while the session is still being negotiated
+    for k in range(early):
+        if not world.sock[victim].closed:
+            world.user_send(victim, bytes([190 + k]) * (4 + k))
     for name in pre_init:
         adv.move(name)
         adv.settle()
@@ -163,6 +198,9 @@ def executions(tier, seed):
             scripts.append((victim, (m,), (), ()))
         for m in PRE_INIT_MOVES:
             scripts.append((victim, (), (m,), ('xfer_ok',)))
+            scripts.append((victim, (), (m,), ('xfer_ok', 'early')))
+        for pair in itertools.product(PRE_INIT_MOVES, repeat=2):
+            scripts.append((victim, (), pair, ('early',)))
         for m in SESS_MOVES:
             scripts.append((victim, (), (), (m,)))
         for pair in itertools.product(SESS_MOVES, repeat=2):
@@ -178,7 +216,9 @@ def executions(tier, seed):
     traces, metas = [], []
     for (i, (victim, pre_ch, pre_init, sess)) in enumerate(scripts):
         nown = 1 + (i % 2)
-        traces.append(run_script(victim, pre_ch, pre_init, sess, nown=nown, seed=seed + i))
+        early = 1 + (i % 2) if 'early' in sess else (1 if (pre_init and i % 5 == 0) else 0)
+        sess = tuple(m for m in sess if m != 'early')
+        traces.append(run_script(victim, pre_ch, pre_init, sess, nown=nown, seed=seed + i, early=early))
         metas.append({'victim': victim, 'pre_ch': list(pre_ch), 'pre_init': list(pre_init), 'sess': list(sess),
-                      'own_bundles': nown})
+                      'own_bundles': nown, 'queued_before_session': early})
     return traces, metas
